@@ -962,6 +962,25 @@ def run_C07(ctx):
                 cfg['chunk'] = r.choice([1, 1, 2, 3])
         cases.append(gens.valid_history(r, k, tier, "acc_%04d_%s" % (i, k), nops=nops, cfg=cfg, ops_allowed=ops, no_mask=True,
                                         sig="rand:%d" % r.below(9999)))
+    # directed: the chunk size is changed before every call (alternating sizes), long enough for a per-call residue of a
+    # frame to exceed the bound many times over
+    for i, (k, ratio, a, b) in enumerate([('sincout', 3.0, 64, 32), ('sincin', 3.0, 64, 32), ('sincout', 1.5, 64, 32),
+                                          ('sincin', 0.75, 48, 47), ('sincout', 44100 / 48000, 64, 63), ('sincout', 3.0, 128, 127)]):
+        if ctx.quick and i >= 4:
+            break
+        r = rng.fork("c07_alt_%d" % i)
+        cfg = async_cfg(r, k, tier)
+        cfg.update({'ratio': ratio, 'maxrel': 1.0, 'chunk': a, 'slen': 8, 'L': 8, 'nch': 1})
+        if cfg['factor'] < 2:
+            cfg['factor'] = 2
+        ncalls = 70 if ctx.quick else 400
+        sig = "rand:%d" % r.below(9999)
+        lines = ["T ty=%s" % cfg['ty'], new_line(cfg)]
+        ops = []
+        for j in range(ncalls):
+            lines.append("SETCHUNK n=%d" % (b if j % 2 == 0 else a)); ops.append({'op': 'setchunk'})
+            lines.append("PIB mask=- inlen=next outlen=next sig=%s" % sig); ops.append({'op': 'pib'})
+        cases.append(Case("acc_alt_%02d_%s" % (i, k), lines, {'cfg': cfg, 'ops': ops, 'sig': sig}))
     execute(ctx, cases, res, judge_C07, timeout=600)
     res['dist'].update(collections.Counter(c.meta['cfg']['kind'] for c in cases))
     res['dist']['total_calls'] = sum(len(c.meta['ops']) for c in cases)
@@ -1363,6 +1382,26 @@ def run_C10(ctx):
         ca.meta['twin'] = cb
         cases += [ca, cb]
 
+    # directed: configurations where chunk/ratio is an integer (or within an ulp of one), the only place where two
+    # formulas for the same request -- the constructor's and a recomputation -- can round differently
+    INTQ = [(0.7, 1400), (1.05, 441), (0.35, 700), (1.4, 1400), (2.1, 441), (0.525, 441), (2.8, 1400), (4.2, 441), (0.7, 700), (1.05, 882)]
+    for i, (ratio, chunk) in enumerate(INTQ if not ctx.quick else INTQ[:6]):
+        for k in (('fastout', 'sincout') if not ctx.quick else (('fastout',) if i % 2 else ('sincout',))):
+            r = rng.fork("c10_intq_%d_%s" % (i, k))
+            cfg = async_cfg(r, k, 'quick')
+            cfg.update({'ratio': ratio, 'maxrel': r.choice([1.0, 2.0]), 'chunk': chunk, 'nch': 1})
+            if k == 'sincout':
+                cfg.update({'slen': 8, 'L': 8}); cfg['factor'] = max(cfg['factor'], 2)
+            sig = "rand:%d" % r.below(9999)
+            call = "PIB mask=- inlen=next outlen=next sig=%s" % sig
+            head = ["T ty=%s" % cfg['ty'], new_line(cfg)]
+            suffix = [call, call]
+            pre_n = r.choice([0, 1, 2])
+            ca = Case("rst_intq_%02d_%s_a" % (i, k), head + [call] * pre_n + ["RESET"] + suffix, {'cfg': cfg, 'nsuffix': len(suffix), 'kind': k})
+            cb = Case("rst_intq_%02d_%s_b" % (i, k), head + suffix, {'cfg': cfg, 'is_twin': True})
+            ca.meta['twin'] = cb
+            cases += [ca, cb]
+
     def judge(c):
         if c.meta.get('is_twin'):
             return []
@@ -1732,6 +1771,15 @@ def warm_variants(r, cfg):
             else:
                 c['rin'], c['rout'] = r.choice(gens.RATE_PAIRS[:8])
         out.append("WARM" + new_line(c)[3:])
+    if cfg['kind'] in gens.ASYNC and r.chance(0.6):
+        # the last resampler built before the one under test is a near miss: everything equal except a ratio a fraction of a
+        # ppm away, or a cutoff one f32 ulp away (what an approximate cache key would confuse)
+        c = dict(cfg)
+        if cfg['kind'].startswith('sinc') and r.chance(0.4) and cfg.get('fcut'):
+            c['fcut'] = f32round(cfg['fcut'] * (1 + r.choice([-1, 1]) * 2.0 ** -23))
+        else:
+            c['ratio'] = cfg['ratio'] * (1 + r.choice([1e-7, -1e-7, 3e-8, -2e-7]))
+        out.append("WARM" + new_line(c)[3:])
     return out
 
 
@@ -1771,6 +1819,20 @@ def run_C18(ctx):
         h = gens.valid_history(r.fork('h'), k, 'quick', "th_%04d_%s" % (i, k), cfg=cfg, allow_out_of_envelope=False)
         warm = warm_variants(r.fork('w'), cfg)
         cases += group("th_%04d_%s" % (i, k), h.spec, warm, cfg, r.choice([2, 3, 4, 8, 16]), r.choice(['odd', 'even']))
+
+    # directed: downsampling sinc resamplers (the effective cutoff depends on the ratio) built right after a near miss
+    for i, (k, ratio) in enumerate([('sincin', 44100 / 96000), ('sincout', 44100 / 48000), ('sincin', 0.5000001), ('sincout', 1 / 3.0)]):
+        if rl:
+            break
+        if ctx.quick and i >= 2:
+            break
+        r = rng.fork("c18_near_%d" % i)
+        cfg = async_cfg(r, k, 'quick')
+        cfg.update({'ratio': ratio, 'interp': 'default', 'maxrel': r.choice([1.0, 1.1])})
+        h = gens.valid_history(r.fork('h'), k, 'quick', "th_near_%02d_%s" % (i, k), cfg=cfg, allow_out_of_envelope=False, nops=4,
+                               ops_allowed=['pib', 'pib', 'process'])
+        c2 = dict(cfg); c2['ratio'] = ratio * (1 + r.choice([1e-7, -1e-7, 2e-7]))
+        cases += group("th_near_%02d_%s" % (i, k), h.spec, ["WARM" + new_line(c2)[3:]], cfg, r.choice([2, 4]), 'odd')
 
     def judge(c):
         if c.meta.get('is_twin'):
@@ -1875,6 +1937,18 @@ def run_C05(ctx):
             variants = [(fam_kind + 'in', pick(), None), (fam_kind + 'in', pick(), None), (fam_kind + 'out', pick(), None)]
             if r.chance(0.5):
                 variants.append((fam_kind + 'out', pick(), None))
+            if i < 6 or r.chance(0.15):
+                # directed: output chunks smaller than the ratio (fixed-output calls that need no new input at all),
+                # and input chunks smaller than the step (fixed-input calls that produce no frame)
+                if i % 2 == 0:
+                    base['ratio'] = r.choice([4.0, 8.0] if nearest else [4.0, 8.0, 96000 / 44100, 3.0]); base['maxrel'] = r.choice([1.0, 2.0])
+                    exact = base['ratio'] in (4.0, 8.0)
+                    variants = [(fam_kind + 'in', r.choice([64, 256]), None)] + [(fam_kind + 'out', k, None) for k in (1, 2, 3)]
+                else:
+                    base['ratio'] = r.choice([0.25, 0.125] if nearest else [0.25, 0.125, 44100 / 96000, 1 / 3.0]); base['maxrel'] = r.choice([1.0, 2.0])
+                    exact = base['ratio'] in (0.25, 0.125)
+                    variants = [(fam_kind + 'out', r.choice([64, 256]), None)] + [(fam_kind + 'in', k, None) for k in (1, 2, 3)]
+                total_in = min(total_in, 300)
             if fam_kind == 'sinc':
                 for kk in ('sincin', 'sincout'):
                     cmax = 2 + r.below(hi)
@@ -2014,7 +2088,8 @@ def fft_sizes(cfg):
 
 def sinc_probe_cfg(r, quick, model):
     w = r.below(6)
-    L = r.choice([64, 64, 128] if (quick or model) else [64, 128, 256, 512])
+    # lengths that are 8 mod 16 exercise the remainder handling of the unrolled SIMD kernels
+    L = r.choice([64, 72, 104, 128] if (quick or model) else [64, 72, 104, 128, 200, 256, 512])
     if model:
         L = 64
     itype = r.below(4)
@@ -2393,7 +2468,8 @@ PROPS = {
         'pinned': ['C03_fast_in_call_safe_R', 'C03_fast_out_call_safe_R', 'C03_fast_in_run_safe_R', 'C03_fast_out_run_safe_R',
                    'C03_ctor_fast_in_R', 'C03_ctor_fast_out_R', 'C03_fast_window_R',
                    'C03_fast_in_steps_safe_R', 'C03_fast_in_steps_start_R', 'C03_step_up_compatible', 'C03_step_down_compatible',
-                   'C03_sinc_in_steps_safe_R', 'C03_sinc_in_steps_start_R',
+                   'C03_sinc_in_steps_safe_R', 'C03_sinc_in_steps_start_R', 'C03_fast_out_steps_safe_R', 'C03_ctor_fast_out_steps_R',
+                   'C03_sinc_out_steps_safe_R', 'C03_ctor_sinc_out_steps_R',
                    'C03_sinc_in_call_safe_R', 'C03_sinc_in_run_safe_R', 'C03_ctor_sinc_in_R',
                    'C03_sinc_out_call_safe_R', 'C03_sinc_out_run_safe_R', 'C03_ctor_sinc_out_R',
                    'C03_fft_inout_call_safe', 'C03_fft_inout_run_safe', 'C03_fft_in_call_safe_R', 'C03_fft_in_run_safe_R',
@@ -2414,7 +2490,7 @@ PROPS = {
         'judge_replay': lambda c: judge_C04(c) if 'ops' in c.meta else [],
         'pinned': ['C04_fast_in_counts_R', 'C04_fast_out_counts_R', 'C04_fast_in_next_le_max_R', 'C04_sinc_in_next_le_max_R', 'C04_fast_out_next_le_max_R',
                    'C04_sinc_in_counts_R', 'C04_sinc_out_counts_R', 'C04_fft_in_counts_R', 'C04_fft_out_counts_R', 'C04_fft_inout_counts',
-                   'C04_fast_in_steps_counts_R', 'C04_sinc_in_steps_counts_R'],
+                   'C04_fast_in_steps_counts_R', 'C04_sinc_in_steps_counts_R', 'C04_fast_out_steps_counts_R', 'C04_sinc_out_steps_counts_R'],
         'unproved': ['next <= max in binary64 (the inequalities are proved over R; the fix of D7 makes both sides the same association, '
                      'monotonicity of rounding is not formalised)', 'next <= max for the sinc fixed-output and the FFT types: by the predicate on every trace',
                      'ratio changes outside the envelope'],
@@ -2426,7 +2502,7 @@ PROPS = {
         'judge_replay': lambda c: judge_C06(c) if (c.meta.get('warp') and 'ops' in c.meta) else [],
         'pinned': ['C06_instants_fixed_out_R', 'C06_instants_fixed_in_R', 'C06_loop_ops_R', 'C06_spacing_R', 'C06_increment_fixed_in_R',
                    'C06_increment_fixed_out_R', 'C06_step_immediate_R', 'C06_ramp_interval_R', 'C06_ramp_monotone_R',
-                   'C06_steps_positive_R', 'C06_ramp_reaches_target_R', 'C06_after_ramp_R', 'C06_fast_in_step_call_R', 'C06_sinc_in_step_call_R'],
+                   'C06_steps_positive_R', 'C06_ramp_reaches_target_R', 'C06_after_ramp_R', 'C06_fast_in_step_call_R', 'C06_sinc_in_step_call_R', 'C06_fast_out_step_call_R', 'C06_sinc_out_step_call_R'],
         'unproved': ['C06_full_fixed_in is refuted in Coq (C06_full_fixed_in_refuted): beyond frame A of a fixed-input ramp the spacing leaves '
                      '[old,new] (recorded finding ramp-overrun)',
                      '"computed from frames actually supplied": for fixed-output ramps the request is too small (recorded finding fixedout-ramp); '
